@@ -26,6 +26,10 @@ pub struct ArchCase {
 #[derive(Clone, Debug, Serialize, Deserialize)]
 pub struct Case {
     pub arch: ArchCase,
+    /// body delivery: 0 = at once; 1 = one piece per stored chunk size (pieces end exactly on chunk boundaries);
+    /// n >= 2 = pieces of n bytes. Fragmentation is not a transfer failure: the request sequence must not change.
+    #[serde(default)]
+    pub pieces: u16,
     /// subsets of descriptors to fetch, as bit masks over the dictionary order (bit i = descriptor i)
     pub masks: Vec<Vec<bool>>,
 }
@@ -69,8 +73,19 @@ pub fn build(a: &ArchCase) -> Result<Option<Built>, String> {
 }
 
 /// Fetch each subset through Archive::chunk_stream over HttpReader and compare the server's Range log.
-pub fn run_masks(b: &Built, hash_len: usize, masks: &mut dyn Iterator<Item = Vec<bool>>, mut per_mask: impl FnMut(&[bool], usize, usize)) -> Result<(), String> {
-    let srv = http::Server::start(b.bytes.clone(), http::Script::default());
+pub fn run_masks(b: &Built, hash_len: usize, pieces: u16, masks: &mut dyn Iterator<Item = Vec<bool>>, mut per_mask: impl FnMut(&[bool], usize, usize)) -> Result<(), String> {
+    let script = match pieces {
+        0 => http::Script::default(),
+        1 => {
+            // all descriptors of these archives are stored back to back in dictionary order or not, but their
+            // stored sizes are what a "chunk-wise flushing" server would use
+            let sizes: Vec<usize> = b.descr.iter().map(|d| d.1.max(1)).collect();
+            let uniform = sizes.first().copied().unwrap_or(1);
+            http::Script { rules: vec![(http::When::Always, http::Action { pieces: vec![uniform], pace_us: 300, ..Default::default() })], data_from: 0 }
+        }
+        n => http::Script { rules: vec![(http::When::Always, http::Action { pieces: vec![n as usize], pace_us: 300, ..Default::default() })], data_from: 0 },
+    };
+    let srv = http::Server::start(b.bytes.clone(), script);
     let url: reqwest::Url = srv.url().parse().unwrap();
     crate::util::block_on(async {
         let reader = HttpReader::from_url(url);
@@ -139,7 +154,7 @@ fn run_case(c: &Case, rec: &mut CaseRec) -> Result<(), String> {
     };
     let mut nontrivial = false;
     let mut it = c.masks.iter().cloned();
-    run_masks(&b, c.arch.cfg.hash_len, &mut it, |_m, runs, sel| {
+    run_masks(&b, c.arch.cfg.hash_len, c.pieces, &mut it, |_m, runs, sel| {
         if runs >= 2 && sel > runs {
             nontrivial = true;
         }
@@ -147,6 +162,8 @@ fn run_case(c: &Case, rec: &mut CaseRec) -> Result<(), String> {
     rec.nontrivial = nontrivial;
     rec.level = Some("L1");
     rec.class_if(c.arch.enc.is_some(), "independent_encoder_layout");
+    rec.class_if(c.pieces == 1, "body_pieces_end_on_chunk_boundaries");
+    rec.class_if(c.pieces >= 2, "body_in_small_pieces");
     rec.class_if(c.arch.enc.as_ref().map(|e| !e.order_keys.is_empty()).unwrap_or(false), "dictionary_order_not_file_order");
     rec.class_if(c.arch.enc.as_ref().map(|e| e.gaps.iter().any(|g| *g > 0)).unwrap_or(false), "gaps_between_chunks");
     Ok(())
@@ -173,7 +190,7 @@ fn small_archive_strategy(max_chunks: usize) -> impl Strategy<Value = ArchCase> 
 }
 
 fn random_mask_case_strategy() -> impl Strategy<Value = Case> {
-    (small_archive_strategy(60), prop::collection::vec(prop::collection::vec(prop::bool::weighted(0.6), 60), 1..6)).prop_map(|(arch, masks)| Case { arch, masks })
+    (small_archive_strategy(60), prop::collection::vec(prop::collection::vec(prop::bool::weighted(0.6), 60), 1..6), prop_oneof![2 => Just(0u16), 2 => Just(1u16), 1 => 2u16..40]).prop_map(|(arch, masks, pieces)| Case { arch, masks, pieces })
 }
 
 fn l2_case(c: &l2scen::L2Scen, rec: &mut CaseRec) -> Result<(), String> {
@@ -245,17 +262,20 @@ impl Prop for C07 {
                 // enumerate all subsets in one server session; on failure report the (archive, mask) pair
                 let mut stats: Vec<(Vec<bool>, usize, usize)> = vec![];
                 let mut it = (0..total).map(|m| (0..n).map(|k| (m >> k) & 1 == 1).collect::<Vec<bool>>());
-                let r = guarded(|| run_masks(&b, arch.cfg.hash_len, &mut it, |m, runs, sel| stats.push((m.to_vec(), runs, sel))));
+                let pieces: u16 = match i % 3 { 0 => 0, 1 => 1, _ => 7 };
+                let r = guarded(|| run_masks(&b, arch.cfg.hash_len, pieces, &mut it, |m, runs, sel| stats.push((m.to_vec(), runs, sel))));
                 count += stats.len() as u64;
                 for (m, runs, sel) in &stats {
                     let mut rec = CaseRec::default();
                     rec.nontrivial = *runs >= 2 && sel > runs;
                     rec.level = Some("L1");
                     rec.class_if(arch.enc.is_some(), "independent_encoder_layout");
+                    rec.class_if(pieces == 1, "body_pieces_end_on_chunk_boundaries");
+                    rec.class_if(pieces >= 2, "body_in_small_pieces");
                     let key = blake2_64(&[b"subsets", &(i as u64).to_le_bytes(), format!("{:?}", m).as_bytes(), &cx.seed.to_le_bytes()]);
                     let arch2 = arch.clone();
                     let m2 = m.clone();
-                    cx.account(rec, key, move || serde_json::to_value(&Case { arch: arch2, masks: vec![m2] }).unwrap());
+                    cx.account(rec, key, move || serde_json::to_value(&Case { arch: arch2, masks: vec![m2], pieces }).unwrap());
                 }
                 if let Err(f) = r {
                     // the failing mask is the one after the last accounted one; shrink by replaying single masks
@@ -263,9 +283,9 @@ impl Prop for C07 {
                         .map(|m| (0..n).map(|k| (m >> k) & 1 == 1).collect::<Vec<bool>>())
                         .find(|m| {
                             let mut one = std::iter::once(m.clone());
-                            run_masks(&b, arch.cfg.hash_len, &mut one, |_, _, _| {}).is_err()
+                            run_masks(&b, arch.cfg.hash_len, pieces, &mut one, |_, _, _| {}).is_err()
                         });
-                    let case = Case { arch: arch.clone(), masks: vec![failing.unwrap_or_default()] };
+                    let case = Case { arch: arch.clone(), masks: vec![failing.unwrap_or_default()], pieces };
                     cx.fail("subsets", serde_json::to_value(&case).unwrap(), &f);
                     break;
                 }
